@@ -31,7 +31,7 @@ def x_obligations(tier):
                      timeout=T, path_timeout=200, family="C11-paths",
                      bound=f"search {s!r}; entities {epre!r}+c+{esuf!r} (c any character) and {fixed}; local and server trees; junk {junk} and {jpre!r}+d+{jsuf!r} (d any character)"))
     # two types that search the same glob (miniB: pr__file / pr__doc): the file-system finder still answers like the list search
-    (s_, epre_, esuf_, fixed_, junk_, jpre_, jsuf_) = ("m/p/x/it/01/s/*", "m/p/x/it/01/s/", "", "m/p/x/it/01/s/d;m/p/x/it/01/s/i;m/p/x/it/01/p/t", "@/M/PROPS/x/it/01/x-it-SAV.02.d", "/M/PROPS/x/it/01/x-it-SAV.01.", "Q")
+    (s_, epre_, esuf_, fixed_, junk_, jpre_, jsuf_) = ("m/p/x/it/01/s/*", "m/p/x/it/01/s/", "", "m/p/x/it/01/s/d;m/p/x/it/01/s/i;m/p/x/it/01/p/t", "@/M/PROPS/x/it/01/x-it-SAV.02.d", "", "")
     o.append(Obl(f"C11-paths[miniB,{s_}]", "xhair.obl.c11", "paths_agree", env={"VF_CONF": "miniB", "VF_SEARCH": s_, "VF_EPRE": epre_, "VF_ESUF": esuf_, "VF_FIXED": fixed_, "VF_JUNK": junk_, "VF_JPRE": jpre_, "VF_JSUF": jsuf_},
                  timeout=T, path_timeout=200, family="C11-paths", bound="miniB: search over two types sharing one glob pattern; three path configurations over the glob model"))
     for (s, epre, esuf, fixed) in ALL_CASES:
